@@ -108,6 +108,14 @@ def _job(args):
                     prev = c
                 parts.append(n - prev)
                 scheds.append(parts)
+            # "all chunkings from C01": a single cut just before / after every structure boundary, and small reads
+            for b in cuts[:10]:
+                for c in (b - 1, b + 1):
+                    if 0 < c < n:
+                        scheds.append([c, n - c])
+            if n <= 40000:
+                q, r = divmod(n, 17)
+                scheds.append([17] * q + ([r] if r else []))
         raised_ref = (ref['safety'] == 'rejected' and not ref['match'] and not ref['complete']
                       and ref['size']['k'] == 'zero')
         want = (ref['safety'], sorted(ref['fails']))
@@ -159,6 +167,75 @@ def traits_stage(ctx, records):
     return chosen
 
 
+def isolation_stage(ctx, chosen):
+    """The verdict is a function of the inspector's own stream: inspectors of one format working side by side
+    (two uploads in one process; "detect all, then check all") must each reach the verdict they reach alone."""
+    from vf import images, insp
+    from oslo_utils.imageutils import format_inspector as fi
+    rnd = random.Random(ctx.seed + 11)
+    by = {}
+    for idx, rec in chosen:
+        ref = rec['ref']
+        if ref['safety'] == 'rejected':
+            continue
+        by.setdefault((rec['L']['fmt'], ref['safety']), []).append((idx, rec))
+    pairs = []
+    for fmt in sorted({k[0] for k in by}):
+        oks, fails = by.get((fmt, 'ok'), []), by.get((fmt, 'fail'), [])
+        rnd.shuffle(oks)
+        rnd.shuffle(fails)
+        k = 6 if ctx.quick else 40
+        pairs += list(zip(oks[:k], fails[:k])) + list(zip(fails[:k], fails[k:2 * k])) + list(zip(oks[:k], oks[k:2 * k]))
+    n = 0
+    for (ia, ra), (ib, rb) in pairs:
+        built = []
+        for idx, rec in ((ia, ra), (ib, rb)):
+            r2 = random.Random(ctx.seed * 1000003 + idx)
+            fmt, B = ri.gamma(rec['L'])
+            data, bounds = images.build(fmt, B, r2)
+            built.append((fmt, data, rec))
+        for mode in ('interleaved', 'a-then-b-then-check-a'):
+            objs = [fi.ALL_FORMATS[f]() for f, _, _ in built]
+            errs = [None, None]
+            if mode == 'interleaved':
+                size = 4096
+                pos = 0
+                longest = max(len(d) for _, d, _ in built)
+                while pos < longest:
+                    for j, (f, d, _) in enumerate(built):
+                        if pos < len(d) and errs[j] is None:
+                            try:
+                                objs[j].eat_chunk(d[pos:pos + size])
+                            except Exception as e:
+                                errs[j] = e
+                    pos += size
+            else:
+                for j, (f, d, _) in enumerate(built):
+                    try:
+                        objs[j].eat_chunk(d)
+                    except Exception as e:
+                        errs[j] = e
+            for j in (0, 1):
+                if errs[j] is None:
+                    try:
+                        objs[j].finish()
+                    except Exception as e:
+                        errs[j] = e
+            for j, (f, d, rec) in enumerate(built):
+                n += 1
+                v = insp.verdict(objs[j], errs[j])
+                got = (v[0], sorted(v[4]))
+                want = (rec['ref']['safety'], sorted(rec['ref']['fails']))
+                if got != want:
+                    other = built[1 - j][2]['L']
+                    ctx.violation({'kind': 'isolation', 'fmt': f, 'mode': mode, 'want': want[0], 'got': got[0]},
+                                  {'layout': rec['L'], 'other_layout': other, 'mode': mode, 'observed': got, 'expected': want},
+                                  '%s image %s inspected next to %s (%s): safety outcome %s, alone %s' % (
+                                      f, rec['L'], other, mode, got, want))
+    ctx.cov['evaluations'] += n
+    ctx.stage('instance-isolation', pairs=len(pairs), verdicts=n)
+
+
 def cli_run(path, verbose=False):
     env = dict(os.environ)
     p = subprocess.run([sys.executable, '-m', 'oslo_utils.imageutils', '-i', path] + (['-v'] if verbose else []),
@@ -193,12 +270,14 @@ def cli_stage(ctx, chosen):
         raised_ref = (ref['safety'] == 'rejected' and not ref['match'] and not ref['complete']
                       and ref['size']['k'] == 'zero')
         L = rec['L']
-        if raised_ref and L.get('total', 1) != 0:
+        if raised_ref and L.get('total', 1) != 0 and not (L['fmt'] == 'vmdk' and L.get('sig')):
             continue        # what an errored inspector reports afterwards is finding F4 / observation O6
+        # a VMDK (signature present) whose inspector refuses the header - misplaced descriptor, unsupported
+        # version - is named by the property: the stream still says vmdk, so the checker must not exit 0
         usable.append((idx, rec))
     by = {}
     for it in usable:
-        by.setdefault((it[1]['L']['fmt'], it[1]['ref']['safety']), []).append(it)
+        by.setdefault((it[1]['L']['fmt'], it[1]['ref']['safety'], it[1]['ref']['match']), []).append(it)
     sel = []
     per = 10 if quick else 80
     for k, lst in sorted(by.items()):
@@ -217,6 +296,8 @@ def cli_stage(ctx, chosen):
                 # own format matches -> decided by its safety outcome; otherwise the content is
                 # detected as raw, whose (null) check passes
                 want_zero = (ref['safety'] == 'ok') if ref['match'] else True
+                if rec['L']['fmt'] == 'vmdk' and rec['L'].get('sig') and ref['safety'] == 'rejected':
+                    want_zero = False
                 zero += rc == 0
                 if (rc == 0) != want_zero:
                     ctx.violation({'kind': 'cli-exit', 'fmt': rec['L']['fmt'], 'rc': rc, 'want_zero': want_zero},
@@ -334,6 +415,7 @@ def run(ctx):
     records = ri.export_layouts(ctx)
     chosen = traits_stage(ctx, records)
     ctx.sample({'trait_case': {'L': chosen[0][1]['L'], 'ref': chosen[0][1]['ref'], 'unsafe': chosen[0][1]['unsafe']}})
+    isolation_stage(ctx, chosen)
     cli_stage(ctx, chosen)
     from_file_stage(ctx, chosen)
     injection_stage(ctx)
